@@ -15,4 +15,4 @@ else
   shift
 fi
 [ "$1" = "--" ] && shift
-GCV_REPO="$SCR" GCV_NOEVIDENCE=1 /verif/bin/gcv "$@"
+GCV_REPO="$SCR" GCV_NOEVIDENCE=1 "${GCV_BIN:-/verif/bin/gcv}" "$@"
